@@ -856,7 +856,9 @@ func (s *State) extendFunctionEnv(
 		pval := object.Value(args[paramIdx])
 		needVariable := true
 		// (constant names go through the variable path and its 'attempt to change constant' check)
-		if !s.NoReg && pval.Type() == object.INTEGER && !object.Constant(param.Value().Literal()) {
+		// (and names of extension functions: same refusal as without registers)
+		if !s.NoReg && pval.Type() == object.INTEGER && !object.Constant(param.Value().Literal()) &&
+			!object.IsExtraFunction(param.Value().Literal()) {
 			// We will release all these registers just by returning/dropping the env.
 			_, nbody, ok := setupRegister(env, param.Value().Literal(), pval.(object.Integer).Value, newBody)
 			if ok {
@@ -1012,7 +1014,7 @@ func (s *State) evalForIntegerReg(fe *ast.ForExpression, start *int64, end int64
 	newBody = fe.Body
 	if loopReg != nil {
 		ptr = loopReg.Ptr()
-	} else if name != "" && !s.NoReg && !object.Constant(name) {
+	} else if name != "" && !s.NoReg && !object.Constant(name) && !object.IsExtraFunction(name) {
 		var ok bool
 		register, newBody, ok = setupRegister(s.env, name, int64(startValue), fe.Body)
 		if ok {
